@@ -1,3 +1,19 @@
+/-
+  Props/C15ShiftOn.lean — C15, shift invariance of the finalisers RELATIVE TO A DOMAIN `S` of times (Props/C15Shift.lean re-derived
+  under `ShiftLawsOn S k`, Lemmas/ShiftLawsOn.lean; instantiated on IEEE doubles in Props/C15IeeeShift.lean).
+
+  `StateIn S st`: every time the finaliser reads from, or forms by integer arithmetic from, the unfinalised state lies in `S` —
+  object starts, for circles `start + 5`, for spinners / holds the stored duration, `start + duration` and `start + duration + 5`
+  (`ObjIn`), break ends, control-point and pending-group times. (`S` is not assumed closed under `+`: these memberships are the
+  closure facts, stated where they are used.)
+
+  * `sort_shift_on`, `skipBreaks_shift_on`, `postProcessBreaks_shift_on`, `finalizeObject_shift_on` (circle / spinner / hold: in
+    full), `finalizeObject_shift_on_erased` (slider: start, velocity — timing / difficulty lookups at the integer start —, curve,
+    buffers, error; NOT the samples resolved at `start + i·duration/spans + 5`, `start + duration + 5`, which are not in `S`).
+  * **`finish_rel_on` / `finish_shift_on`** (no sliders): `(shiftState k st).finish = st.finish.map (shiftHitObjects k)`.
+  * **`finish_rel_on_erased` / `finish_shift_on_erased`** (sliders allowed): the same after `eraseHO` (slider `nodeSamples` and
+    `samples` forgotten on both sides). The erased clause is false of IEEE doubles: `slider_samples_shift_false`.
+-/
 import RosuModel.Props.C15Shift
 import RosuModel.Lemmas.ShiftLawsOn
 namespace Rosu.C15
